@@ -247,7 +247,65 @@ fn check_cli_whitespace_tail_and_output_file(scratch: &Scratch) -> (u64, Vec<Vio
             ));
         }
     }
+    // -o under file names whose extension agrees with, contradicts or says nothing about the format:
+    // the file holds exactly what stdout would carry
+    for ext in [".npy", ".sfs", ".txt", ".bin", "", ".npy.sfs", ".NPY"] {
+        for npy in [true, false] {
+            n += 1;
+            let shape = vec![2usize, 3];
+            let x = RefArray::from_fn(&shape, |f, _| f as f64 + 0.25);
+            let input = text_of(&x);
+            let fmt_args: Vec<&str> = if npy { vec!["view", "-O", "npy"] } else { vec!["view"] };
+            let to_stdout = run_sfs(&fmt_args, Stdin::Bytes(input.as_bytes()), scratch);
+            let path = scratch.path(&format!(".named{ext}"));
+            let mut a = fmt_args.clone();
+            a.extend(["-o", path.to_str().unwrap()]);
+            let o = run_sfs(&a, Stdin::Bytes(input.as_bytes()), scratch);
+            let written = std::fs::read(&path).unwrap_or_default();
+            let _ = std::fs::remove_file(&path);
+            if !(o.ok() && to_stdout.ok() && written == to_stdout.stdout && (!npy || check_written(&written, &shape, &x.data).is_ok())) {
+                viols.push((
+                    format!("C15|cli|output-file-name-matters|{}", if npy { "npy" } else { "text" }),
+                    format!("sfs {} -o FILE{ext}: {} {}; the file starts {:?}, stdout of the same command starts {:?}", fmt_args.join(" "), o.status_str(), o.stderr_str().trim(), String::from_utf8_lossy(&written[..written.len().min(24)]), String::from_utf8_lossy(&to_stdout.stdout[..to_stdout.stdout.len().min(24)])),
+                    J::obj([("kind", J::s("c15-out-name")), ("ext", J::s(ext)), ("npy", J::Bool(npy))]),
+                ));
+            }
+        }
+    }
     (n, viols)
+}
+
+/// A `fortran_order: True` file of the given shape holding 0, 1, 2, .. in memory order: it is either
+/// rejected or read with numpy's meaning (element (i,j,..) at column-major offset) - also when some
+/// axes have length one.
+fn eval_fortran(shape: &[usize]) -> Option<Viol> {
+    let n: usize = shape.iter().product();
+    let data: Vec<u8> = (0..n).flat_map(|i| (i as f64).to_le_bytes()).collect();
+    let bytes = synth(1, &dict_text("<f8", true, shape, &Spelling::numpy()), &data);
+    // C-order listing of the values numpy would show
+    let expect: Vec<f64> = crate::enumerate::indices(shape)
+        .iter()
+        .map(|idx| {
+            let mut off = 0usize;
+            let mut stride = 1usize;
+            for (i, len) in idx.iter().zip(shape) {
+                off += i * stride;
+                stride *= len;
+            }
+            off as f64
+        })
+        .collect();
+    let case = J::obj([("kind", J::s("c15-fortran")), ("shape", J::usizes(shape)), ("file_hex", J::s(hex(&bytes)))]);
+    match catch(|| Array::read_npy(&bytes[..]).map(|a| (a.shape().to_vec(), a.as_slice().to_vec()))) {
+        Ok(Err(_)) => None,
+        Ok(Ok((s, v))) if s == shape && v == expect => None,
+        Ok(Ok((s, v))) => Some((
+            format!("C15|lib|fortran-order-misread|{}", if shape.contains(&1) { "unit-axis" } else { "no-unit-axis" }),
+            format!("a fortran_order file of shape {shape:?} is read as shape {s:?} values {v:?}; numpy reads {expect:?} (or the file is rejected)"),
+            case,
+        )),
+        Err(p) => Some((format!("C15|lib|reject-panic|{}", norm_msg(&p)), format!("fortran_order file of shape {shape:?} panicked: {p}"), case)),
+    }
 }
 
 // ---------------------------------------------------------------------------------------------
@@ -489,11 +547,19 @@ fn eval_corpus(name: &str, scratch: Option<&Scratch>) -> Option<Viol> {
             Err(p) => Err(format!("panic: {p}")),
         },
         Some(scratch) => {
-            let o = run_sfs(&["view", "-O", "npy"], Stdin::Bytes(&bytes), scratch);
+            // by path (under the name numpy gave it) for every other file, through stdin for the rest:
+            // the output is a re-encoding, whatever the route and whatever other options are absent
+            let by_path = name.bytes().map(|b| b as usize).sum::<usize>() % 2 == 0;
+            let o = if by_path {
+                crate::cli::run_sfs_transport(&["view", "-O", "npy"], &bytes, crate::cli::Transport::PathFile, ".npy", scratch)
+            } else {
+                run_sfs(&["view", "-O", "npy"], Stdin::Bytes(&bytes), scratch)
+            };
             if !o.ok() {
                 Err(format!("{} {}", o.status_str(), o.stderr_str()))
             } else {
                 match strict_parse_header(&o.stdout) {
+                    Ok(p) if p.version != (1, 0) || p.descr != "<f8" || p.fortran_order => Err(format!("the output is not an NPY 1.0 '<f8' C-order file: version {:?}, descr '{}', fortran_order {}", p.version, p.descr, p.fortran_order)),
                     Ok(p) => Ok(o.stdout[p.data_offset..]
                         .chunks_exact(8)
                         .map(|c| f64::from_le_bytes(c.try_into().unwrap()))
@@ -658,11 +724,16 @@ pub fn run(tier: Tier) -> i32 {
     for v in res.into_iter().flatten() {
         rep.violation(v.0, v.1, v.2);
     }
+    // fortran_order files of every shape with 1..3 axes of lengths 1..3 (unit axes included)
+    let fshapes = crate::enumerate::shapes(3, 1, 3, usize::MAX);
+    for v in par_map(fshapes.len(), |i| eval_fortran(&fshapes[i])).into_iter().flatten() {
+        rep.violation(v.0, v.1, v.2);
+    }
     rep.part(Part {
         name: "lib: rejections".into(),
-        evaluations: rejects.len() as u64,
-        nontrivial: rejects.len() as u64,
-        note: "fortran_order True per dtype, unsupported dtypes, missing keys, bad magic/version".into(),
+        evaluations: (rejects.len() + fshapes.len()) as u64,
+        nontrivial: (rejects.len() + fshapes.len()) as u64,
+        note: format!("fortran_order True per dtype, unsupported dtypes, missing keys, bad magic/version; fortran_order files of all {} shapes with 1..3 axes of lengths 1..3: rejected, or read with numpy's column-major meaning", fshapes.len()),
         exhaustive: true,
         extra: vec![],
     });
@@ -730,7 +801,7 @@ pub fn run(tier: Tier) -> i32 {
             rep.violation(k, w, j);
         }
         rep.part(Part {
-            name: "cli: whitespace bytes at the end of binary data; -o onto an existing file".into(),
+            name: "cli: whitespace bytes at the end of binary data; -o onto an existing file; -o under seven file-name extensions".into(),
             evaluations: n,
             nontrivial: n,
             note: "|u1, >u2, >i4 and <f8 files whose last data byte is 0x20/0x0a/0x0d/0x09/0x0c through `sfs view -O npy`; `view -O npy -o FILE` onto a longer existing FILE must leave exactly the bytes it prints to stdout".into(),
@@ -758,7 +829,7 @@ pub fn run(tier: Tier) -> i32 {
         name: "cli: numpy corpus through sfs view -O npy".into(),
         evaluations: files.len() as u64,
         nontrivial: files.len() as u64,
-        note: "npy in, npy out: values must be bit-identical to numpy's float64 conversion; reject_* files must fail".into(),
+        note: "npy in (through stdin for half of the files, by path under a .npy name for the other half), npy out: a conforming NPY 1.0 <f8 file whose values are bit-identical to numpy's float64 conversion; reject_* files must fail".into(),
         exhaustive: true,
         extra: vec![],
     });
